@@ -382,8 +382,7 @@ def T6(ctx: Ctx) -> RuleResult:
     mod = ctx.model.module('hpl.rewrite')
     for node in ast.walk(mod.tree):
         if isinstance(node, ast.Compare) and len(node.ops) == 1 and isinstance(node.ops[0], ast.Eq) and isinstance(node.comparators[0], ast.Constant) and isinstance(node.comparators[0].value, str):
-            left = ast.unparse(node.left)
-            if left.endswith('fun.name') or left.endswith('function.name'):
+            if isinstance(node.left, ast.Attribute) and node.left.attr == 'name' and _is_function_def_expr(mod, node, node.left.value):
                 n += 1
                 v = node.comparators[0].value
                 if v in fnames:
@@ -392,6 +391,22 @@ def T6(ctx: Ctx) -> RuleResult:
                     r.fail(f'rewrite:fun.name=={v}', f'rewrite.py dispatches on function name {v!r}, which no BuiltinFunction has (dead branch / renamed function)', f'{mod.relpath}:{node.lineno}')
     r.floor('predicates', n, 40)
     return r
+
+
+def _is_function_def_expr(mod, at: ast.AST, e: ast.expr) -> bool:
+    """`e` denotes a FunctionDefinition: `<x>.function` or a local assigned from / annotated as one"""
+    if isinstance(e, ast.Attribute) and e.attr == 'function':
+        return True
+    if isinstance(e, ast.Name):
+        for fn in ast.walk(mod.tree):
+            if isinstance(fn, ast.FunctionDef) and any(at is x for x in ast.walk(fn)):
+                for st in ast.walk(fn):
+                    if isinstance(st, ast.AnnAssign) and isinstance(st.target, ast.Name) and st.target.id == e.id:
+                        if 'FunctionDefinition' in ast.unparse(st.annotation) or (st.value is not None and isinstance(st.value, ast.Attribute) and st.value.attr == 'function'):
+                            return True
+                    if isinstance(st, ast.Assign) and any(isinstance(t, ast.Name) and t.id == e.id for t in st.targets) and isinstance(st.value, ast.Attribute) and st.value.attr == 'function':
+                        return True
+    return False
 
 
 def _token_set(v: Term, tok: Term) -> Optional[List[str]]:
